@@ -423,7 +423,7 @@ pub fn run(args: &Args) {
         let op = args.work.join("py_out.json");
         std::fs::write(&sp, serde_json::to_vec(&sessions).unwrap()).unwrap();
         let _ = std::fs::remove_file(&op);
-        let st = Command::new("python3")
+        let st = Command::new("timeout").arg("-k").arg("10").arg("900").arg("python3")
             .arg(format!("{}/pyharness/run_py.py", root))
             .arg(&cfg_path)
             .arg(&res)
